@@ -112,7 +112,7 @@ CHECKS = {
     ),
     "C02": dict(
         category="model_checking",
-        text=('Create.tla with projection: the three apply paths as coded (exact, projected via the odometer, insufficient) against the declarative hypergeometric contribution for every admissible target; replay on library and binary with both CLI spellings and six precisions; CreateLarge.tla adds cohorts of 20-200 chromosomes whose exact hypergeometric rows (BigInteger rationals from TLC) are compared to 1e-9 relative at precision 40.'),
+        text=('Create.tla with projection: the three apply paths as coded (exact, projected via the odometer, insufficient) against the declarative hypergeometric contribution for every admissible target; replay on library and binary with both CLI spellings and six precisions; CreateLarge.tla adds cohorts of 20-200 chromosomes whose exact hypergeometric rows (BigInteger rationals from TLC) are compared to 1e-9 relative at precision 40. ProjOdometer.tla: the order in which a site\'s weights meet the cells, inductive invariant for targets of any size (Apalache).'),
         design_ref="DESIGN.md sections 2 and 3 (C02)",
         note=('Exhaustive inside the scenario bounds of the listed MCCreate_*.cfg; beyond them (more samples, longer streams) nothing is claimed by this check. Trusted: TLC, Q.class, harness file synthesis and comparison.'),
         technique="TLA+ pipeline state machine (Create.tla) with declarative oracle, TLC exhaustive enumeration, behaviour replay through library and binary",
@@ -181,11 +181,13 @@ CHECKS = {
               "bijection/row-major order, view partition, 'each item once then None forever' and exact len() on "
               "every call history in the bound (next() and nth(n) calls, arrays with zero-length axes included), and every "
               "behaviour is replayed call by call on sfs_core::array. ArrayMem.tla: histories of writes through every mutable "
-              "access path from every constructor, the whole array read back through every read path after each step."),
+              "access path from every constructor, the whole array read back through every read path after each step. "
+              "Odometer.tla / Odometer3.tla: the view iterator's odometer for lengths and strides of any size, IndInv discharged as "
+              "an inductive invariant by Apalache and the same actions run with large concrete constants by TLC and replayed."),
         design_ref="DESIGN.md section 3 (C19)",
         note=("Exhaustive inside the bound (quick: 1-4 axes, lengths 1-3; thorough: 1-5 axes lengths 1-3, 1-3 axes "
               "lengths 1-5, 4/5-axis catalogue). Trusted: TLC, CommunityModules Json, harness comparison code."),
-        technique="TLA+ state machine per iterator, TLC exhaustive enumeration, spec->impl behaviour replay",
+        technique="TLA+ state machine per iterator, TLC exhaustive enumeration, Apalache inductive invariant for unbounded sizes, spec->impl behaviour replay",
     ),
 }
 
